@@ -542,7 +542,7 @@ func genSchedule(c *vf.Ctx, i int, r *rand.Rand) *schedule {
 		lo = s.initial
 	}
 	// candidate heights for changes: inside the window (incl. exactly K, K+-1, K+-2) and early in the chain
-	pick := func(minAt int64) []int64 {
+	pick := func(minAt int64, forbid int64) []int64 {
 		set := map[int64]bool{}
 		k := r.IntN(5)
 		for j := 0; j < k; j++ {
@@ -557,7 +557,7 @@ func genSchedule(c *vf.Ctx, i int, r *rand.Rand) *schedule {
 			default:
 				h = lo + r.Int64N(hi-lo+1)
 			}
-			if h >= minAt {
+			if h >= minAt && !(s.noCkpt[K] && h == forbid) {
 				set[h] = true
 			}
 		}
@@ -574,7 +574,7 @@ func genSchedule(c *vf.Ctx, i int, r *rand.Rand) *schedule {
 		power[v] = g.VotingPower
 	}
 	nextNew := nv
-	for _, at := range pick(s.initial + 2) {
+	for _, at := range pick(s.initial+2, K) { // old-chain layout: the record of K (a reference target) is dropped, so no change there
 		var ch []*types.Validator
 		used := map[int]bool{}
 		for j := 1 + r.IntN(2); j > 0; j-- {
@@ -607,7 +607,7 @@ func genSchedule(c *vf.Ctx, i int, r *rand.Rand) *schedule {
 			s.vals = append(s.vals, valChange{at: at, changes: ch})
 		}
 	}
-	for _, at := range pick(s.initial + 1) {
+	for _, at := range pick(s.initial+1, K-1) {
 		s.pars = append(s.pars, parChange{at: at, params: mkParams(r)})
 	}
 	// query heights
